@@ -3,6 +3,7 @@ package checks
 import (
 	"fmt"
 	"math/rand"
+	"os"
 	"sort"
 	"strings"
 	"time"
@@ -179,9 +180,12 @@ func asOverlappingEscalations(rng *rand.Rand) (*asScenario, []asStep) {
 	sc.Cfg.Decision["a"] = "escalate"
 	sc.Cfg.Decision["t"] = "resume"
 	steps := []asStep{{A: "spawn", X: "t"}}
-	burst := []asStep{{A: "tell", X: "c", Op: "fail"}, {A: "tell", X: "d", Op: "fail"}}
 	if rng.Intn(2) == 0 {
-		burst[0], burst[1] = burst[1], burst[0]
+		steps = append(steps, asStep{A: "settle"})
+	}
+	burst := []asStep{{A: "tell", X: "c", Op: "fail"}, {A: "tell", X: "d", Op: "fail", Burst: true}}
+	if rng.Intn(2) == 0 {
+		burst[0].X, burst[1].X = "d", "c"
 	}
 	for i := 0; i < rng.Intn(3); i++ {
 		steps = append(steps, asStep{A: "tell", X: sc.Names[rng.Intn(len(sc.Names))], Op: "nop"})
@@ -218,6 +222,33 @@ func asZombieSubscriber(rng *rand.Rand) (*asScenario, []asStep) {
 	if rng.Intn(2) == 0 {
 		steps = append(steps, asStep{A: "kill", X: victim, Poison: rng.Intn(2) == 0})
 		steps = append(steps, asStep{A: "tell", X: "b", Op: "pub", Arg: "A"})
+	}
+	return sc, steps
+}
+
+// asConcurrentSiblingFailures: two siblings fail in one burst under a one-for-all supervisor whose decisions differ
+// from round to round (for instance Resume for the first fault, Restart for the second); mail is queued behind them.
+func asConcurrentSiblingFailures(rng *rand.Rand) (*asScenario, []asStep) {
+	par := map[string]string{"t": "root", "a": "t", "b": "t", "c": "b", "d": "a"}
+	sc := &asScenario{Parent: par, Names: []string{"a", "b", "c", "d", "t"}, Cfg: asConfig{Decision: map[string]string{}, Strategy: map[string]string{}}}
+	decs := []string{"restart", "grestart", "stop", "gstop", "resume", "escalate"}
+	for _, n := range sc.Names {
+		sc.Cfg.Decision[n] = decs[rng.Intn(len(decs))]
+		sc.Cfg.Strategy[n] = []string{"ofo", "ofa"}[rng.Intn(2)]
+	}
+	sc.Cfg.Strategy["t"] = "ofa"
+	first := []string{"resume", "resume", "grestart", "gstop"}[rng.Intn(4)]
+	second := []string{"restart", "restart", "restart", "grestart", "resume", "stop"}[rng.Intn(6)]
+	sc.Cfg.DecisionSeq = map[string][]string{"t": {first, second}}
+	// the whole tree is up and idle, then both faults and the mail behind them arrive in one burst
+	steps := []asStep{{A: "spawn", X: "t"}, {A: "settle"}}
+	burst := []asStep{{A: "tell", X: "a", Op: "fail"}, {A: "tell", X: "b", Op: "fail", Burst: true}}
+	if rng.Intn(2) == 0 {
+		burst[0].X, burst[1].X = "b", "a"
+	}
+	steps = append(steps, burst...)
+	for i := 0; i < 3+rng.Intn(4); i++ {
+		steps = append(steps, asStep{A: "tell", X: []string{"a", "b"}[rng.Intn(2)], Op: "nop", Burst: true})
 	}
 	return sc, steps
 }
@@ -290,7 +321,7 @@ func asCheck(c *core.Ctx, plan asPlan) {
 	var rj []*asBehaviour
 	for i := 0; i < core.Pick(c, 400, 6000); i++ {
 		sc, steps := asRandomScenario(rng, plan.ops, plan.vias)
-		if plan.directed != nil && i%5 == 4 {
+		if plan.directed != nil && (i%5 == 4 || os.Getenv("VERIF_DIRECTED_ONLY") != "") {
 			sc, steps = plan.directed(rng)
 		}
 		rj = append(rj, &asBehaviour{Scen: *sc, Steps: steps})
@@ -394,7 +425,7 @@ func init() {
 			rule: base + "Judged by KillMon."})
 	})
 	register("C09", func(c *core.Ctx) {
-		asCheck(c, asPlan{prop: "C09", monitors: []string{"UnstuckMon"}, mc: t3, gen: g3, ops: asOpsBasic,
+		asCheck(c, asPlan{prop: "C09", monitors: []string{"UnstuckMon"}, mc: t3, gen: g3, ops: asOpsBasic, directed: asConcurrentSiblingFailures,
 			rule: base + "Judged by UnstuckMon."})
 	})
 	register("C19", func(c *core.Ctx) {
